@@ -389,6 +389,17 @@ var LocPool = []*time.Location{
 	time.Local,
 }
 
+// LocName names a Location of LocPool deterministically (pool index + offset): two pool entries of
+// the same zone are different *time.Location values and must stay distinguishable in replays.
+func LocName(loc *time.Location) string {
+	for i, l := range LocPool {
+		if l == loc {
+			return fmt.Sprintf("L%d%s", i, Base.In(loc).Format("-07:00"))
+		}
+	}
+	return "L?" + Base.In(loc).Format("-07:00")
+}
+
 // SameInstantDifferentRepr reports the input predicate of finding watermark-trigger-time-eq for
 // two time values: the same instant, but not identical as Go structs (different Location).
 func SameInstantDifferentRepr(a, b time.Time) bool {
